@@ -96,3 +96,14 @@ Theorem c12_lag_is_previous : forall db p now clock id u ch db' e,
              /\ exists v, u_dp u = Some v /\ e_dp e' = {| d_ts := clock; d_value := v |}.
 Proof. exact changed_datapoint_sets_lag. Qed.
 Print Assumptions c12_lag_is_previous.
+
+(* a subquery used as an operand (of a comparison, BETWEEN, NOT, ...) is refused at subscribe time: it is only an item of
+   the SELECT list (finding F29: it used to be accepted and evaluated as its position among the statement's subqueries) *)
+Theorem c12_subquery_operand_refused : forall schema : list Z -> option data_type,
+  compile_expr schema QSub = Err EUnsupportedOperation /\
+  (forall op a, compile_expr schema (QBin op QSub a) = Err EUnsupportedOperation) /\
+  (forall a neg hi, (exists c, compile_expr schema a = Ok c) ->
+                    compile_expr schema (QBetween a neg QSub hi) = Err EUnsupportedOperation).
+Proof. exact subquery_operand_refused. Qed.
+Print Assumptions c12_subquery_operand_refused.
+
